@@ -392,9 +392,12 @@ def finish(ctx: Ctx, level: str, checker_cmd: str, rule: str, explanation: str =
     known = [k for k in load_known() if k.get("property") == ctx.pid and k.get("status") == "open"]
     known_keys = {k["key"]: k for k in known}
     unlisted = []
+    printed = set()
     for v in ctx.violations:
         if v["key"] in known_keys and v["concrete"]:
-            print(f"KNOWN-FINDING: property={ctx.pid} {known_keys[v['key']]['what']}")
+            if v["key"] not in printed:
+                printed.add(v["key"])
+                print(f"KNOWN-FINDING: property={ctx.pid} {known_keys[v['key']]['what']}")
         else:
             unlisted.append(v)
     REPLAYS.mkdir(exist_ok=True)
